@@ -423,6 +423,92 @@ def rule_w5(chk: Check):
     chk.floor("W5-buffer-copy", 5)
 
 
+def rule_w6(chk: Check, ix):
+    """W6: inside a loop that accumulates into a collection, nothing may walk the whole collection on every iteration (join it,
+    copy it, sort it, sum it): the loop's total work is then quadratic in what it accumulates.  W7: a function that calls itself
+    must not evaluate the same recursive call twice on one path (`if f(e) is not None: return f(e)`): every level of nesting then
+    doubles the work."""
+    from ..pyflow import own_nodes
+    from .. import repo as _repo
+    WHOLE = {"list", "tuple", "sorted", "sum", "set", "dict", "frozenset", "reversed"}
+    n_loops = n_rec = 0
+    for q, f in sorted(ix.funcs.items()):
+        if f.rel not in (_repo.SUBHEADER, _repo.TOKENIZER, _repo.TOKENIZE):
+            continue
+        for loop in own_nodes(f.node):
+            if not isinstance(loop, (ast.For, ast.While)):
+                continue
+            n_loops += 1
+            grown: set[str] = set()
+            for n in ast.walk(loop):
+                if isinstance(n, ast.Subscript) and isinstance(n.ctx, ast.Store) and isinstance(n.value, ast.Name):
+                    grown.add(n.value.id)
+                if isinstance(n, ast.Call) and isinstance(n.func, ast.Attribute) and isinstance(n.func.value, ast.Name) and \
+                        n.func.attr in ("append", "add", "extend", "update", "setdefault", "insert"):
+                    grown.add(n.func.value.id)
+            if not grown:
+                continue
+
+            def mentions(e) -> set[str]:
+                out = set()
+                for x in ast.walk(e):
+                    if isinstance(x, ast.Name) and x.id in grown:
+                        out.add(x.id)
+                return out
+            for st in loop.body + loop.orelse:
+                for n in ast.walk(st):
+                    if not isinstance(n, ast.Call):
+                        continue
+                    whole = None
+                    if isinstance(n.func, ast.Attribute) and n.func.attr == "join" and n.args:
+                        arg = n.args[0]
+                        core = arg.func.value if isinstance(arg, ast.Call) and isinstance(arg.func, ast.Attribute) and \
+                            arg.func.attr in ("values", "items", "keys") else arg
+                        if isinstance(core, ast.Name) and core.id in grown:
+                            whole = core.id
+                        elif isinstance(arg, (ast.GeneratorExp, ast.ListComp)) and mentions(arg.generators[0].iter):
+                            whole = sorted(mentions(arg.generators[0].iter))[0]
+                    elif isinstance(n.func, ast.Name) and n.func.id in WHOLE and n.args:
+                        arg = n.args[0]
+                        core = arg.func.value if isinstance(arg, ast.Call) and isinstance(arg.func, ast.Attribute) and \
+                            arg.func.attr in ("values", "items", "keys") else arg
+                        if isinstance(core, ast.Name) and core.id in grown:
+                            whole = core.id
+                    elif isinstance(n.func, ast.Attribute) and n.func.attr in ("copy",) and isinstance(n.func.value, ast.Name) and n.func.value.id in grown:
+                        whole = n.func.value.id
+                    if whole:
+                        chk.count("W6-loop-work")
+                        chk.fail("W6-loop-work", f"{q}:{norm_stmt(n)[:50]}", f"{f.rel}:{n.lineno}",
+                                 f"`{norm_stmt(n)[:60]}` walks all of `{whole}` on every iteration of the loop that fills it: the loop does "
+                                 f"quadratic work in the size of what it captures")
+        # W7
+        name = f.node.name
+        rec_calls = [c for c in own_nodes(f.node) if isinstance(c, ast.Call) and
+                     ((isinstance(c.func, ast.Attribute) and c.func.attr == name and norm_stmt(c.func.value) in ("self", "cls")) or
+                      (isinstance(c.func, ast.Name) and c.func.id == name and f.cls is None))]
+        if rec_calls:
+            n_rec += 1
+            chk.count("W6-loop-work")
+            dup = None
+            for st in own_nodes(f.node):
+                if isinstance(st, ast.If):
+                    in_test = {norm_stmt(c) for c in ast.walk(st.test) if any(c is r for r in rec_calls)}
+                    in_body = {norm_stmt(c) for b in st.body for c in ast.walk(b) if any(c is r for r in rec_calls)}
+                    if in_test & in_body:
+                        dup = sorted(in_test & in_body)[0]
+                elif isinstance(st, ast.stmt) and not isinstance(st, (ast.For, ast.While, ast.Try, ast.With, ast.FunctionDef)):
+                    texts = [norm_stmt(c) for c in ast.walk(st) if any(c is r for r in rec_calls)]
+                    if len(texts) != len(set(texts)):
+                        dup = texts[0]
+            chk.require(dup is None, "W6-loop-work", f"{q}:recursive-call-once", f.where,
+                        f"the recursive call `{dup}` is evaluated in a test and again under it: each nesting level of the input doubles "
+                        f"the work (exponential in the depth of nested displays)")
+    chk.count("W6-loop-work")
+    chk.ok("W6-loop-work", "runtime-modules:scanned", _repo.SUBHEADER, f"{n_loops} loops, {n_rec} self-recursive functions scanned")
+    if n_loops < 10 or n_rec < 1:
+        raise AnalysisError(f"W6: only {n_loops} loops / {n_rec} recursive functions seen")
+
+
 def run(chk: Check):
     chk.explanation = (
         "A graph criterion on the IR of the parser that runs: (W1) no rule evaluates an unmemoised rule twice at the same "
@@ -446,6 +532,8 @@ def run(chk: Check):
     rule_w3(chk, ir)
     rule_w4(chk, ir)
     rule_w5(chk)
+    from ..pyflow import Index as _Ix6
+    rule_w6(chk, _Ix6())
     # the scanner is part of the work: no exponentially ambiguous regular expression (C03 T4)
     from .c03 import rule_t4
     from ..pyflow import Index
